@@ -300,7 +300,7 @@ theorem machineOK_of_full (d : DFA Nat) (entries0 : List (String × Nat)) (d' : 
     (h0 : (d.st 0).initial = true ∧ (d.st 0).accepting = [])
     (hent : ∀ p ∈ entries0, (d.st p.2).initial = true ∧ (d.st p.2).accepting = [])
     (ctxs : List (DFA Nat)) (actions : Nat → Action σ τ ε) (width : Nat → Nat) (input : Option (List Nat)) :
-    MachineOK { dfa := d', ctxs := ctxs, entries := entries', actions := actions, width := width, input := input } := by
+    MachineOK { dfa := d', ctxs := ctxs, entries := entries', inl := inlinedStates d', actions := actions, width := width, input := input } := by
   have hT := hF.targets
   obtain ⟨hent', _, hS⟩ := simplify_spec d entries0 d' entries' hs hT
   have hinit : ∀ e, (d.st e).initial = true → (d.st e).accepting = [] →
@@ -312,7 +312,7 @@ theorem machineOK_of_full (d : DFA Nat) (entries0 : List (String × Nat)) (d' : 
     { flags := ?_
       acceptAny := ?_
       targets := ?_
-      initNotInlined := initialNotInlined d'
+      inl := inlOK_inlinedStates d'
       state0 := ?_
       entries := ?_
       eoiAccept := ?_ }
@@ -703,7 +703,7 @@ theorem compileLexer_machineOK_of {σ τ ε : Type} (items : LexerDef) (c : Comp
       0 < c.dfa.length ∧ ∃ rules, coreRules (topRules items) [] 0 = some rules ∧
         ((∀ r ∈ rules, regexPiecesOK r.re) → RealisesRules c.dfa 0 rules))
     (actions : Nat → Action σ τ ε) (width : Nat → Nat) (input : Option (List Nat)) :
-    MachineOK { dfa := c.dfa, ctxs := c.ctxs, entries := c.entries, actions := actions, width := width, input := input } := by
+    MachineOK (c.config actions width input) := by
   have HB : BlockHyp := hblock
   by_cases hrs : hasRuleSets items = true
   · -- named rule sets
